@@ -276,6 +276,10 @@ class Lib:
         self.rounding = None       # when set, each call runs under this rounding mode
         self._depth = 0
         self.tick = None          # progress heartbeat installed by the worker
+        self.number_probe = None
+        if monitors:
+            from . import numprobe
+            numprobe.install(self)
         if numeric_locale is not None:
             if self.vp_set_numeric_locale(numeric_locale) != 0:
                 raise HarnessError('numeric locale %r is not available' % numeric_locale)
@@ -640,6 +644,8 @@ class Lib:
             if rc != CIF_OK:
                 raise HarnessError('cif_value_get_text -> %d' % rc)
             q = self.call('cif_value_is_quoted', v)
+            if k == KIND_NUMB and self.number_probe is not None:
+                self.number_probe(v, text)
             return ('char' if k == KIND_CHAR else 'numb', text, bool(q))
         if k == KIND_UNK:
             return ('unk',)
